@@ -1,0 +1,5 @@
+//go:build !verif
+
+package fun
+
+func verifAt(string) {}
